@@ -216,6 +216,16 @@ func checkC01(c *Ctx, w *World) {
 		c.check(cmdOK, "C01.extract", "command handed to placement", p.ipos(gcalls[0]), "command is the configured method's command", "placement is given a command that is not the method's")
 	}
 
+	lookupRules(pl, grs, gsr, func(r string) string { return r })
+
+	// ---- C01.retire
+	pl.checkRetire("C01.retire", func(field string) bool { return true })
+}
+
+// lookupRules: the bound-key lookup (getReadySubConnRef) and its use by getSubConnRef. Shared by C01 (a bound key
+// goes home) and C02 (a key that is NOT in the key table is load-balanced: it must never be reported as known).
+func lookupRules(pl *pool, grs, gsr *ssa.Function, R func(string) string) {
+	c, p := pl.c, pl.p
 	// ---- C01.lookup (getReadySubConnRef)
 	key := grs.Params[1]
 	isHome := func(v ssa.Value) bool { // the connection the key is bound to
@@ -259,28 +269,28 @@ func checkC01(c *Ctx, w *World) {
 		v, onlyNil, ok := slotOrigin(r.Results[0])
 		switch {
 		case !ok || (!foundTrue && !foundFalse):
-			c.undecided("C01.lookup", construct, p.ipos(r), "result has mixed origins: "+originStrings(origins(r.Results[0])))
+			c.undecided(R("C01.lookup"), construct, p.ipos(r), "result has mixed origins: "+originStrings(origins(r.Results[0])))
 		case foundFalse:
 			imp, wit := gcs.Implies(reach, gcs.Not(KF))
-			c.check(imp && onlyNil, "C01.lookup", construct, p.ipos(r), "reports 'not bound' only when the key is not in the table, with no slot", "a bound key can be reported as unknown (the call would then be load-balanced): "+wit)
+			c.check(imp && onlyNil, R("C01.lookup"), construct, p.ipos(r), "reports 'not bound' only when the key is not in the table, with no slot", "a bound key can be reported as unknown (the call would then be load-balanced): "+wit)
 		case onlyNil:
 			imp, wit := gcs.Implies(reach, gcs.And(KF, gcs.Not(HR)))
-			c.check(imp, "C01.lookup", construct, p.ipos(r), "bound key, no slot (caller is told to wait): only when the home channel is not READY", "a bound key whose channel is READY can be refused: "+wit)
+			c.check(imp, R("C01.lookup"), construct, p.ipos(r), "bound key, no slot (caller is told to wait): only when the home channel is not READY", "a bound key whose channel is READY can be refused: "+wit)
 		default:
 			l, isLk := stripConv(v).(*ssa.Lookup)
 			if isLk && isLoadOf(l.X, "gcpBalancer.scRefs") && isHome(l.Index) {
 				imp, wit := gcs.Implies(reach, gcs.And(KF, HR))
 				homeRet = or(homeRet, reach)
-				c.check(imp, "C01.lookup", construct, p.ipos(r), "returns the home slot scRefs[affinityMap[key]] only when that channel is READY", "the home slot can be returned while its channel is not READY: "+wit)
+				c.check(imp, R("C01.lookup"), construct, p.ipos(r), "returns the home slot scRefs[affinityMap[key]] only when that channel is READY", "the home slot can be returned while its channel is not READY: "+wit)
 			} else {
 				imp, wit := gcs.Implies(reach, gcs.And(KF, gcs.Not(HR), FB))
-				c.check(imp, "C01.lookup", construct, p.ipos(r), "returns another slot only for a bound key whose home is not READY and with fallback enabled", "a bound key can be placed on a different channel while its channel is READY or with fallback disabled: "+wit)
+				c.check(imp, R("C01.lookup"), construct, p.ipos(r), "returns another slot only for a bound key whose home is not READY and with fallback enabled", "a bound key can be placed on a different channel while its channel is READY or with fallback disabled: "+wit)
 			}
 		}
 	}
-	c.floor("C01.lookup", nret, 3)
+	c.floor(R("C01.lookup"), nret, 3)
 	eq, wit := gcs.Equiv(gcs.OnlyNamed(homeRet), gcs.OnlyNamed(gcs.And(KF, HR)))
-	c.check(eq, "C01.lookup", "getReadySubConnRef: home slot ⇔ bound ∧ READY", p.pos(grs.Pos()), "whenever the key is bound and its channel READY the home slot is returned", "bound key with a READY channel is not always given its home slot: "+wit)
+	c.check(eq, R("C01.lookup"), "getReadySubConnRef: home slot ⇔ bound ∧ READY", p.pos(grs.Pos()), "whenever the key is bound and its channel READY the home slot is returned", "bound key with a READY channel is not always given its home slot: "+wit)
 
 	// ---- C01.bound-first (getSubConnRef)
 	grsCalls := pl.callsIn(gsr, grs)
@@ -294,25 +304,23 @@ func checkC01(c *Ctx, w *World) {
 		scs := newCondSpace(gsr, recOf(sAtoms...), atomNames(sAtoms...)...)
 		for _, call := range pl.callsIn(gsr, lb) {
 			imp, wit := scs.Implies(scs.Reach(call), scs.Or(scs.Atom("keyEmpty"), scs.Not(scs.Atom("found"))))
-			c.check(imp, "C01.bound-first", "getSubConnRef: least-busy selection", p.ipos(call), "load-based selection only for calls without a key or with an unknown key", "a bound key can be load-balanced regardless of its binding: "+wit)
+			c.check(imp, R("C01.bound-first"), "getSubConnRef: least-busy selection", p.ipos(call), "load-based selection only for calls without a key or with an unknown key", "a bound key can be load-balanced regardless of its binding: "+wit)
 		}
 		imp, wit := scs.Implies(scs.Reach(g), scs.Not(scs.Atom("keyEmpty")))
-		c.check(imp && g.Call.Args[1] == ssa.Value(gsr.Params[1]), "C01.bound-first", "getSubConnRef: bound lookup", p.ipos(g), "every non-empty key is looked up first, with the caller's key", "bound lookup skipped or performed with another key: "+wit)
+		c.check(imp && g.Call.Args[1] == ssa.Value(gsr.Params[1]), R("C01.bound-first"), "getSubConnRef: bound lookup", p.ipos(g), "every non-empty key is looked up first, with the caller's key", "bound lookup skipped or performed with another key: "+wit)
 		for i, r := range returnsOf(gsr) {
 			if mayPrecede(g, r) {
 				if v, onlyNil, ok := slotOrigin(r.Results[0]); ok && !onlyNil && isExtractOf(v, g, 0) {
 					imp, _ := scs.Implies(scs.Reach(r), scs.Atom("found"))
-					c.check(imp, "C01.bound-first", fmt.Sprintf("getSubConnRef return#%d", i+1), p.ipos(r), "the bound slot is returned exactly as found", "bound slot returned although the key was not found")
+					c.check(imp, R("C01.bound-first"), fmt.Sprintf("getSubConnRef return#%d", i+1), p.ipos(r), "the bound slot is returned exactly as found", "bound slot returned although the key was not found")
 				}
 			}
 		}
 		// the reverse: found ⇒ that return (no fall-through to load-based selection) is the first check above
 	} else {
-		c.fail("C01.bound-first", "getSubConnRef: bound lookup", p.pos(gsr.Pos()), "expected exactly one getReadySubConnRef call in getSubConnRef")
+		c.fail(R("C01.bound-first"), "getSubConnRef: bound lookup", p.pos(gsr.Pos()), "expected exactly one getReadySubConnRef call in getSubConnRef")
 	}
 
-	// ---- C01.retire
-	pl.checkRetire("C01.retire", func(field string) bool { return true })
 }
 
 // isRequestKey: origin is "" or element 0 of getAffinityKeysFromMessage(locator, gcpCtx.reqMsg).
